@@ -283,6 +283,9 @@ def establish(net, connector, server_factory=None, server_host=None):
     cp = connector.factory.buildProtocol(saddr)
     ea.protocol, eb.protocol = cp, sp
     ta.protocol, tb.protocol = cp, sp
+    hook = getattr(net, "on_new_link", None)
+    if hook is not None:
+        hook(link)
     if sp is not None:
         sp.makeConnection(tb)
     if cp is not None:
